@@ -199,6 +199,65 @@ def load_prop(pid):
     return importlib.import_module('vmon.props.' + pid.lower())
 
 
+# ------------------------------------------------------------- coverage
+def anchor_codes(mod):
+    from .mon import lines
+    names = getattr(mod, 'ANCHORS', None)
+    if not names:
+        return None
+    mods = [importlib.import_module(n) for n in names]
+    return lines.code_objects(mods)
+
+
+def start_cover(mod):
+    """Line coverage of the property's anchor files (DESIGN 2.5): LINE events
+    that disable themselves after the first hit, so the cost is negligible."""
+    codes = anchor_codes(mod)
+    if not codes:
+        return None
+    from .mon import lines
+    hits = set()
+
+    def cb(code, line):
+        hits.add((code.co_filename, line))
+        return sys.monitoring.DISABLE
+
+    hook = lines.LineHook(lines.TOOL_COVER, 'vmon-cover', codes)
+    hook.start(cb)
+    return hook, hits
+
+
+def stop_cover(cover, ctx):
+    if cover is None:
+        return
+    hook, hits = cover
+    hook.stop()
+    ctx.extra('_cov_hits', {f'{os.path.relpath(f, REPO)}:{ln}' for f, ln in hits})
+
+
+def cover_report(mod, hits):
+    """Per anchor file: executable lines, lines executed by this run, and the
+    functions none of whose lines were executed."""
+    codes = anchor_codes(mod)
+    hits = set(hits)
+    per_file = {}
+    not_driven = []
+    for code in sorted(codes, key=lambda c: (c.co_filename, c.co_firstlineno)):
+        if not os.path.realpath(code.co_filename).startswith(REPO + os.sep):
+            continue
+        f = os.path.relpath(code.co_filename, REPO)
+        lns = {ln for (_, _, ln) in code.co_lines() if ln is not None and ln != code.co_firstlineno}
+        if not lns:
+            continue
+        got = {ln for ln in lns if f'{f}:{ln}' in hits}
+        d = per_file.setdefault(f, [0, 0])
+        d[0] += len(got)
+        d[1] += len(lns)
+        if not got:
+            not_driven.append(f'{f}:{code.co_qualname}')
+    return ({f: {'executed': a, 'executable': b} for f, (a, b) in per_file.items()}, not_driven)
+
+
 # ---------------------------------------------------------------- shard
 def shard_main(argv):
     pid, tier, seed, shard, nsh, out = argv
@@ -210,8 +269,10 @@ def shard_main(argv):
     ctx = Ctx(pid, tier, seed, shard, nsh)
     limit = mod.TIMEOUT[tier]
     faulthandler.dump_traceback_later(max(limit - 5, 5), exit=False)
+    cover = start_cover(mod)
     try:
         mod.run(ctx)
+        stop_cover(cover, ctx)
         res = ctx.result()
     except HarnessAbort as exc:
         res = ctx.result()
@@ -428,7 +489,12 @@ def main(argv):
     if m['exhaustive'] is not None:
         coverage['exhaustive'] = bool(m['exhaustive'])
     for k, v in m['extras'].items():
-        coverage[k] = v
+        if k == '_cov_hits':
+            per_file, not_driven = cover_report(mod, v)
+            coverage['anchor_line_coverage'] = per_file
+            coverage['anchor_functions_not_driven'] = not_driven
+        else:
+            coverage[k] = v
     coverage['known_findings_seen'] = sorted(hit_known)
     coverage['violation_counts'] = {f'{c}|{k}': n_ for (c, k), n_ in m['vcount'].items()}
     if inconclusive:
